@@ -14,7 +14,7 @@ RULE = ('one case = one real invocation under the resolver/connect doubles (scri
         'surrounding whitespace and CRLF} x {-p absent, present} x {none, -4, -6, -46, -64} x resolver answer orders {v4 first, v6 first, v4 only, v6 only}; a subset runs against the real resolver and stack (127.x.y.z, ::1).  '
         'Oracle: every resolver query carries exactly the modelled host and port and the family implied by the option; every connect goes to the first address of the modelled candidate list (requested families only, requested order); '
         'the label in JSON / multi-target / policy output follows the spelling rule; an invalid port yields no query, no connect and a non-zero status.  Non-trivial: >= 1 resolver query or a rejected port observed; distinct = distinct invocations')
-REQUIRED = {'reconnects_checked': 300, 'invocations': 200, 'resolver_queries': 200, 'connects_checked': 150, 'labels_checked': 100, 'invalid_ports': 15, 'targets_file_runs': 30, 'ipv_option_runs': 60, 'real_stack_runs': 5}
+REQUIRED = {'rate_check_connects_checked': 100, 'reconnects_checked': 300, 'invocations': 200, 'resolver_queries': 200, 'connects_checked': 150, 'labels_checked': 100, 'invalid_ports': 15, 'targets_file_runs': 30, 'ipv_option_runs': 60, 'real_stack_runs': 5}
 ASSUMPTIONS = ['host:port in the target wins over -p (the statement calls -p the default)',
                'the tool is only required to try candidates in order; whether it falls back to the second address after a failure is not part of the property']
 MANIFEST = {
@@ -45,7 +45,8 @@ def cases(tier, seed):
     ports_bad = [0, 65536, 70000, -1]
     hosts = [('name', n) for n in NAMES] + [('v4', V4), ('v6', V6), ('v6', V6FULL), ('v6', '::7')]
     orders = ['v4first', 'v6first', 'v4only', 'v6only']
-    ipopts = [[], ['-4'], ['-6'], ['-46'], ['-64'], ['-4', '-6'], ['-6', '-4'], ['--ipv6', '--ipv4']]
+    ipopts = [[], ['-4'], ['-6'], ['-46'], ['-64'], ['-4', '-6'], ['-6', '-4'], ['--ipv6', '--ipv4'],
+              ['-6', '-6'], ['-66'], ['-4', '--ipv4'], ['-6', '--ipv6'], ['-4', '-6', '-4'], ['-646']]   # an option given twice means what it means given once
     n = 0
     for kind, h in hosts:
         for port in ports_ok + [rng.randint(1024, 65000)] + ports_bad:
@@ -74,6 +75,10 @@ def cases(tier, seed):
             for kind, h in (('name', 'dual.example'), ('v4', V4), ('v6', V6)):
                 for place in ('cmdline', 'file'):
                     cs.append({'kind': 'spelling', 'hkind': kind, 'host': h, 'port': 2222, 'spelling': 'hostport', 'place': place, 'ip': opt, 'order': order, 'fmt': 'json', 'seed': rng.randrange(1 << 30), 'ipcase': True})
+    # the same with the connection-rate check of a standard audit running: its connections follow the requested families and order too
+    for opt in (['-46'], ['-64'], ['-4'], ['-6'], []):
+        for order in orders:
+            cs.append({'kind': 'spelling', 'hkind': 'name', 'host': 'dual.example', 'port': 2222, 'spelling': 'hostport', 'place': 'cmdline', 'ip': opt, 'order': order, 'fmt': 'json', 'seed': rng.randrange(1 << 30), 'ipcase': True, 'rate': True})
     for i in range(6 if tier == 'quick' else 40):
         cs.append({'kind': 'real', 'addr': rng.choice(['127.0.0.1', '127.%d.%d.%d' % (rng.randint(0, 255), rng.randint(0, 255), rng.randint(1, 254)), '::1']), 'place': ['cmdline', 'file'][i % 2], 'fmt': ['json', 'text'][i % 2]})
     for i in range(4 if tier == 'quick' else 30):
@@ -130,7 +135,7 @@ def family_pref(ip):
             for ch in a[1:]:
                 if ch in '46':
                     out.append(int(ch))
-    return out
+    return [x for i, x in enumerate(out) if x not in out[:i]]
 
 
 def label_for(host, port, v6):
@@ -149,7 +154,7 @@ def run_spelling(c):
     spec = {'resolver': {'answers': {c['host']: ans}, 'redirect': ['127.0.0.1', p4.port], 'redirect6': ['::1', p6.port]}}
     d = runner.scratch_dir('c18')
     try:
-        args = ['--skip-rate-test'] + list(c['ip']) + list(extra)
+        args = ([] if c.get('rate') else ['--skip-rate-test']) + list(c['ip']) + list(extra)
         fmt = c['fmt']
         if fmt == 'policy':
             from props import c06
@@ -202,7 +207,7 @@ def run_spelling(c):
         return viol, counters
     # (an IP literal needs no lookup: when there is no query the connects alone are judged against the model)
     for e in res:
-        if e['host'] != host or e['port'] != port:
+        if e['host'] != host or (e['port'] != port and not (c.get('rate') and e['port'] == 0)):   # (the rate check looks the host up without a port and connects to the target's port)
             viol.append(_v('C18/wrong-host-or-port-queried:' + how, 'the resolver was asked for a different host or port than the one named', got=[e['host'], e['port']], want=[host, port], target=t, extra=extra))
             break
         want_fam = 0 if len(pref) != 1 else fam_map[pref[0]]
@@ -215,6 +220,8 @@ def run_spelling(c):
         cands = sorted(cands, key=lambda a: pref.index(a[0]))
     counters['connects_checked'] = len(want)
     counters['reconnects_checked'] = max(0, len(want) - 1)
+    if c.get('rate'):
+        counters['rate_check_connects_checked'] = len(want)
     if not cands:
         if want:
             viol.append(_v('C18/connect-to-unrequested-family:' + ''.join(c['ip']), 'a connection was attempted although no address of the requested family exists', connects=want[:2]))
